@@ -124,7 +124,7 @@ theorem rowPairs_fixed (cfg : Cfg) (hr : cfg.readsFix = true) (rows : Rows α) (
     cases hrow : rows[i]? with
     | none => left; exact ⟨_, rfl, rfl⟩
     | some row =>
-      simp only [Option.map_some, colsOf, hr, if_true, specColSel]
+      simp only [Option.map_some, colsOf, colsPy, hr, if_true, specColSel]
       cases hp : pyIndices row.length c with
       | error e => left; exact ⟨e, rfl, rfl⟩
       | ok ix =>
